@@ -42,7 +42,7 @@ TECHNIQUE = "composition of Lean theorems (C01/C02/C11/C13) + end-to-end differe
 ASSUMPTIONS = []
 
 
-def third_party_font(rng, force_notdef=False):
+def third_party_font(rng, force_notdef=False, force_hhea=False):
     """layout-rich font + COLRv1 graphs over its glyphs"""
     from fontTools.colorLib import builder
     from fontTools import ttLib
@@ -71,7 +71,7 @@ def third_party_font(rng, force_notdef=False):
         outer = C13.gen_transform_wrap(rng, inner)
     glyphs[names[-1]] = outer if rng.random() < 0.7 else {"Format": 1, "Layers": [outer, g(1)]}
     font["COLR"] = builder.buildCOLR(glyphs, version=1)
-    if rng.random() < 0.5:
+    if rng.random() < 0.5 or force_hhea:
         # fonts in the wild: USE_TYPO_METRICS clear and hhea metrics that differ from the OS/2 typo metrics
         font["OS/2"].fsSelection &= ~(1 << 7)
         font["hhea"].ascent = font["OS/2"].sTypoAscender + rng.choice([60, 150])
@@ -91,7 +91,7 @@ def one(job):
     try:
         if kind == "third-party":
             try:
-                data, _ = third_party_font(rng, force_notdef=opts.get("notdef", False))
+                data, _ = third_party_font(rng, force_notdef=opts.get("notdef", False), force_hhea=opts.get("hhea", False))
             except Exception as e:  # noqa
                 return {"kind": kind, "seed": seed, "skip": "gen:" + type(e).__name__}
         else:
@@ -328,6 +328,8 @@ def suite(ctx, res, n):
         if kind == "third-party" and k % 4 == 1:
             opts["bitmaps"] = True
             opts["notdef"] = True   # colour glyphs in two runs of consecutive gids -> two CBLC strikes
+        if kind == "third-party" and k % 4 != 1:
+            opts["hhea"] = True     # USE_TYPO_METRICS clear, hhea metrics differ from the typo metrics (every other third-party font at least)
         jobs.append((kind, ctx.rng.getrandbits(32), opts))
     with ThreadPoolExecutor(max_workers=8) as ex:
         results = list(ex.map(one, jobs))
